@@ -5,4 +5,4 @@ Require Import Inst Reent.
 Require Extraction.
 Require Import ExtrOcamlBasic.
 Extraction Language OCaml.
-Extraction "model.ml" step_u step_n init_state snap_of parse_string_result observer_u observer_n dontcare_equiv decode hex_ok cfg_of step_reent_u step_reent_n rtab_of.
+Extraction "model.ml" step_u step_n init_state snap_of parse_string_result observer_u observer_n dontcare_equiv decode hex_ok cfg_of step_reent_u step_reent_n rtab_of replay.
